@@ -84,6 +84,10 @@ def generate(seed, tier, batch):
                 # threshold detectors are primitives of the compiler too: they are measurements, but not the ones that get collected
                 ops.append({"op": "MeasureFock" if r.random() < 0.85 else "MeasureThreshold", "m": ms})
                 measured += [m for m in ms if m not in measured]
+                rest_ = [m for m in alive if m not in measured]
+                if not late and rest_ and r.random() < 0.5:
+                    # feed-forward from an early photon count onto a mode that is measured later: no collected measurement can come after it
+                    ops.append({"op": r.choice(["Dgate", "Rgate"]), "p": [{"mul": [{"meas": ms[0]}, round(r.uniform(0.1, 0.9), 3)]}], "m": [r.choice(rest_)]})
                 continue
             if x < 0.45:
                 ops.append({"op": r.choice(["Sgate", "Rgate", "Dgate"]), "p": [round(r.uniform(-1, 1), 3)], "m": [r.choice(free_)]})
@@ -392,6 +396,19 @@ def execute(script, w):
             check_lin(head_known, "gbs-compile", sub)
         else:
             check_lin(head, "gbs-compile", nonm)
+        # a command that reads a photon count cannot precede the measurement that produces it - and the collected measurement is the last command
+        last_, reads_fock = {}, {}
+        for x in seq:  # source order: which measurement produced the value a command reads
+            deps_ = {r_.ind for r_ in getattr(x.op, "measurement_deps", ())}
+            if deps_:
+                reads_fock[id(x)] = sorted(m_ for m_ in deps_ if last_.get(m_) == "MeasureFock")
+            if isinstance(x.op, sfops.Measurement):
+                for r_ in x.reg:
+                    last_[r_.ind] = type(x.op).__name__
+        for x in head:
+            if reads_fock.get(id(x)):
+                w.violation("dependency-order", "gbs-compile", {"command": str(x), "reads_photon_counts_of_modes": reads_fock[id(x)], "but_precedes": "the collected MeasureFock"})
+                return
         if len(tail) != 1 or out[-1] is not tail[0]:
             w.violation("gbs-measure", "gbs-compile", {"n_fock_measurements": len(tail), "last_is_measurement": bool(out) and isfock(out[-1])})
             return
